@@ -1,1 +1,331 @@
-(* Proofs/Banded.v -- stub, to be filled in *)
+(* Proofs/Banded.v -- lemmas about Model/Banded.v: index map, dense twin, matrix-vector product. *)
+From Coq Require Import List Arith Lia ZArith Bool Ring_theory Ring.
+From OV Require Import Base.Panic Base.Arith Model.Vector Model.Matrix Model.Banded.
+Import ListNotations.
+Local Open Scope nat_scope.
+
+(* ------------------------------------------------------------------ index map *)
+
+Lemma in_band_iff m1 m2 i j : in_band m1 m2 i j = true <-> (i <= j + m1 /\ j <= i + m2).
+Proof.
+  unfold in_band, out_of_band. rewrite negb_true_iff, orb_false_iff, !Nat.ltb_ge. lia.
+Qed.
+
+Lemma out_of_band_iff m1 m2 i j : out_of_band m1 m2 i j = true <-> (i + m2 < j \/ j + m1 < i).
+Proof. unfold out_of_band. rewrite orb_true_iff, !Nat.ltb_lt. tauto. Qed.
+
+Lemma band_slot_range m1 m2 i j : in_band m1 m2 i j = true -> band_slot m1 i j < m1 + m2 + 1.
+Proof. rewrite in_band_iff. unfold band_slot. lia. Qed.
+
+Lemma band_slot_inj m1 m2 i j j' :
+  in_band m1 m2 i j = true -> in_band m1 m2 i j' = true ->
+  band_slot m1 i j = band_slot m1 i j' -> j = j'.
+Proof. rewrite !in_band_iff. unfold band_slot. lia. Qed.
+
+(* the slot of an in-band pair determines the column: j = i + s - m1 *)
+Lemma band_slot_col m1 m2 i j : in_band m1 m2 i j = true -> j + m1 = i + band_slot m1 i j.
+Proof. rewrite in_band_iff. unfold band_slot. lia. Qed.
+
+(* flat index of (row, slot) inside the n x mm compact buffer *)
+Lemma flat_lt n mm i s : i < n -> s < mm -> i * mm + s < n * mm.
+Proof. intros. nia. Qed.
+
+Lemma flat_inj mm i s i' s' : s < mm -> s' < mm -> i * mm + s = i' * mm + s' -> i = i' /\ s = s'.
+Proof.
+  intros Hs Hs' E.
+  assert (Hi : i = i').
+  { apply (f_equal (fun x => x / mm)) in E.
+    rewrite !Nat.div_add_l in E by lia. rewrite !Nat.div_small in E by lia. lia. }
+  subst. split; auto. lia.
+Qed.
+
+Section BandProofs.
+Context {A : Arith}.
+Notation T := (T A).
+Notation matrix := (matrix A).
+Notation banded := (banded A).
+
+Definition wfM (m : matrix) : Prop := length (buf m) = rows m * cols m.
+
+(* well-formed banded matrix: what every constructor of the public API establishes *)
+Definition wfB (B : banded) : Prop :=
+  wfM (compact B) /\ rows (compact B) = bn B /\ cols (compact B) = bm1 B + bm2 B + 1.
+
+(* raw slot of the compact storage *)
+Definition cslot (B : banded) (i s : nat) : T := nth (i * (bm1 B + bm2 B + 1) + s) (buf (compact B)) zero.
+
+(* the dense twin: in-band entries of the storage, zero elsewhere (only ever used with i, j < n) *)
+Definition dense_entry (B : banded) (i j : nat) : T :=
+  if in_band (bm1 B) (bm2 B) i j then cslot B i (band_slot (bm1 B) i j) else zero.
+
+(* D . v  for the dense twin *)
+Definition dense_mulv (B : banded) (v : list T) : list T :=
+  map (fun i => sum_n (bn B) (fun j => mul (dense_entry B i j) (nth j v zero))) (seq 0 (bn B)).
+
+(* two banded matrices of the same sizes that agree on every slot that lies inside the matrix
+   (padding slots -- column i + s - m1 outside 0..n -- are unconstrained) *)
+Definition same_in_matrix_slots (B B' : banded) : Prop :=
+  wfB B' /\ bn B' = bn B /\ bm1 B' = bm1 B /\ bm2 B' = bm2 B /\
+  forall i j, i < bn B -> j < bn B -> in_band (bm1 B) (bm2 B) i j = true ->
+    cslot B' i (band_slot (bm1 B) i j) = cslot B i (band_slot (bm1 B) i j).
+
+Lemma band_new_wf n m1 m2 (x : T) : wfB (band_new n m1 m2 x).
+Proof. unfold wfB, wfM, band_new, mat_new; cbn. now rewrite repeat_length. Qed.
+
+Lemma mget_ok (B : banded) i s :
+  wfB B -> i < bn B -> s < bm1 B + bm2 B + 1 -> mget (compact B) i s = Ok (cslot B i s).
+Proof.
+  intros (Hwf & Hr & Hc) Hi Hs. unfold mget, cslot. rewrite Hc.
+  apply rd_ok. rewrite Hwf, Hr, Hc. now apply flat_lt.
+Qed.
+
+(* element access = dense twin on the band, refused outside it *)
+Lemma band_get_spec (B : banded) i j :
+  wfB B -> i < bn B -> j < bn B ->
+  band_get B i j = if in_band (bm1 B) (bm2 B) i j then Ok (dense_entry B i j) else Panic Guard.
+Proof.
+  intros Hwf Hi Hj. unfold band_get, dense_entry, in_band.
+  destruct (out_of_band (bm1 B) (bm2 B) i j) eqn:E; cbn; auto.
+  apply mget_ok; auto. apply band_slot_range. unfold in_band. now rewrite E.
+Qed.
+
+End BandProofs.
+
+(* ------------------------------------------------------------------ list update helpers *)
+
+Lemma upd_list_same {X} (l : list X) i d : i < length l -> upd_list l i (nth i l d) = l.
+Proof.
+  revert i; induction l as [|h t IH]; intros [|i] H; cbn in *; try lia; auto.
+  f_equal. apply IH. lia.
+Qed.
+
+Lemma upd_list_twice {X} (l : list X) i a b : upd_list (upd_list l i a) i b = upd_list l i b.
+Proof. revert i; induction l as [|h t IH]; intros [|i]; cbn; auto. now rewrite IH. Qed.
+
+Lemma upd_list_app_mid {X} (l1 l2 : list X) x y : upd_list (l1 ++ x :: l2) (length l1) y = l1 ++ y :: l2.
+Proof. induction l1 as [|h t IH]; cbn; auto. now rewrite IH. Qed.
+
+Lemma upd_list_app_mid' {X} (l1 l2 : list X) x y i :
+  length l1 = i -> upd_list (l1 ++ x :: l2) i y = l1 ++ y :: l2.
+Proof. intros <-. apply upd_list_app_mid. Qed.
+
+(* ------------------------------------------------------------------ sums *)
+
+Section Sums.
+Context {A : Arith}.
+Notation T := (T A).
+
+(* what `acc += t j` for j = lo, lo+1, ... computes, in the code's order *)
+Fixpoint acc_from (x : T) (len lo : nat) (t : nat -> T) : T :=
+  match len with 0 => x | S l => acc_from (add x (t lo)) l (S lo) t end.
+
+Lemma acc_from_snoc x len lo t :
+  acc_from x (S len) lo t = add (acc_from x len lo t) (t (lo + len)).
+Proof.
+  revert x lo; induction len as [|len IH]; intros x lo.
+  - cbn. now rewrite Nat.add_0_r.
+  - change (acc_from x (S (S len)) lo t) with (acc_from (add x (t lo)) (S len) (S lo) t).
+    rewrite IH. cbn [acc_from]. now replace (S lo + len) with (lo + S len) by lia.
+Qed.
+
+Lemma acc_from_sum len lo t : acc_from zero len lo t = sum_n len (fun k => t (lo + k)).
+Proof.
+  induction len as [|len IH]; [reflexivity|].
+  rewrite acc_from_snoc, IH. reflexivity.
+Qed.
+
+(* the accumulate-into-slot loop: `for j in lo..lo+len { r[i] += t j }` *)
+Lemma acc_loop (i : nat) (t : nat -> T) (body : nat -> list T -> res (list T)) :
+  forall len lo (r : list T), i < length r ->
+  (forall j r, lo <= j < lo + len -> i < length r ->
+     body j r = Ok (upd_list r i (add (nth i r zero) (t j)))) ->
+  for_from len lo body r = Ok (upd_list r i (acc_from (nth i r zero) len lo t)).
+Proof.
+  induction len as [|len IH]; intros lo r Hi Hb.
+  - cbn. now rewrite upd_list_same.
+  - cbn [for_from acc_from]. rewrite Hb by (auto; lia). cbn [bind].
+    rewrite IH.
+    + rewrite nth_upd_list by auto. rewrite Nat.eqb_refl. now rewrite upd_list_twice.
+    + now rewrite upd_list_length.
+    + intros j r' Hj Hr'. apply Hb; auto. lia.
+Qed.
+
+Variable RL : RingLaws A.
+Add Ring ARing : (rl_ring A RL).
+
+Lemma radd_0_r (x : T) : add x zero = x. Proof. ring. Qed.
+Lemma rmul_0_l (x : T) : mul zero x = zero. Proof. ring. Qed.
+
+Lemma sum_n_zero n (g : nat -> T) : (forall j, j < n -> g j = zero) -> sum_n n g = zero.
+Proof.
+  induction n as [|n IH]; intros H; cbn; auto.
+  rewrite IH by (intros; apply H; lia). rewrite H by lia. ring.
+Qed.
+
+(* a vanishing prefix can be dropped *)
+Lemma sum_n_skip a b (g : nat -> T) :
+  (forall j, j < a -> g j = zero) -> sum_n (a + b) g = sum_n b (fun k => g (a + k)).
+Proof.
+  intros H. induction b as [|b IH].
+  - rewrite Nat.add_0_r. cbn. now apply sum_n_zero.
+  - replace (a + S b) with (S (a + b)) by lia. cbn. now rewrite IH.
+Qed.
+
+(* a vanishing suffix can be dropped *)
+Lemma sum_n_trunc a b (g : nat -> T) :
+  (forall j, a <= j < a + b -> g j = zero) -> sum_n (a + b) g = sum_n a g.
+Proof.
+  induction b as [|b IH]; intros H.
+  - now rewrite Nat.add_0_r.
+  - replace (a + S b) with (S (a + b)) by lia. cbn.
+    rewrite IH by (intros; apply H; lia). rewrite H by lia. ring.
+Qed.
+
+End Sums.
+
+(* ------------------------------------------------------------------ matrix-vector product *)
+
+Section MulV.
+Context {A : Arith}.
+Notation T := (T A).
+Notation banded := (banded A).
+Variable RL : RingLaws A.
+
+(* the row sum the code accumulates: slots lo .. hi-1 of row i, in order *)
+Definition row_lo (B : banded) (i : nat) : nat := bm1 B - i.
+Definition row_cnt (B : banded) (i : nat) : nat := Nat.min (bn B) (i + bm2 B + 1) - (i - bm1 B).
+Definition row_term (B : banded) (v : list T) (i s : nat) : T :=
+  mul (cslot B i s) (nth (s + i - bm1 B) v zero).
+
+Lemma row_sum_dense (B : banded) (v : list T) i :
+  i < bn B ->
+  sum_n (bn B) (fun j => mul (dense_entry B i j) (nth j v zero)) =
+  sum_n (row_cnt B i) (fun k => row_term B v i (row_lo B i + k)).
+Proof.
+  intros Hi. unfold row_cnt, row_lo, row_term.
+  set (n := bn B) in *. set (m1 := bm1 B). set (m2 := bm2 B).
+  set (jlo := i - m1). set (jhi := Nat.min n (i + m2 + 1)).
+  set (g := fun j => mul (dense_entry B i j) (nth j v zero)).
+  assert (Hn : n = (jlo + (jhi - jlo)) + (n - jhi)) by (unfold jlo, jhi; lia).
+  rewrite Hn at 1.
+  rewrite (sum_n_trunc RL).
+  2:{ intros j Hj. unfold g, dense_entry. fold m1 m2.
+      replace (in_band m1 m2 i j) with false.
+      - apply (rmul_0_l RL).
+      - symmetry. apply not_true_iff_false. rewrite in_band_iff. unfold jlo, jhi in *. lia. }
+  rewrite (sum_n_skip RL).
+  2:{ intros j Hj. unfold g, dense_entry. fold m1 m2.
+      replace (in_band m1 m2 i j) with false.
+      - apply (rmul_0_l RL).
+      - symmetry. apply not_true_iff_false. rewrite in_band_iff. unfold jlo in *. lia. }
+  apply sum_n_ext. intros k Hk. unfold g, dense_entry. fold m1 m2.
+  replace (in_band m1 m2 i (jlo + k)) with true.
+  2:{ symmetry. rewrite in_band_iff. unfold jlo, jhi in *. lia. }
+  unfold band_slot. fold m1.
+  replace (m1 + (jlo + k) - i) with (m1 - i + k) by (unfold jlo; lia).
+  replace (m1 - i + k + i - m1) with (jlo + k) by (unfold jlo; lia).
+  reflexivity.
+Qed.
+
+Lemma band_mul_ok (B : banded) (v : list T) :
+  wfB B -> length v = bn B -> band_mul B v = Ok (dense_mulv B v).
+Proof.
+  intros Hwf Hv. unfold band_mul. rewrite Hv, Nat.eqb_refl. cbn [negb].
+  set (n := bn B) in *.
+  set (rowsum := fun i => sum_n n (fun j => mul (dense_entry B i j) (nth j v zero))).
+  match goal with |- for_ 0 n ?body _ = _ => set (body0 := body) end.
+  destruct (for_inv (fun i r => r = map rowsum (seq 0 i) ++ repeat zero (n - i)) 0 n body0 (repeat zero n))
+    as (r & E & Hr).
+  - lia.
+  - cbn. now rewrite Nat.sub_0_r.
+  - intros i r Hi ->. unfold body0.
+    set (r0 := map rowsum (seq 0 i) ++ repeat zero (n - i)).
+    assert (Hlen1 : length (map rowsum (seq 0 i)) = i) by now rewrite map_length, seq_length.
+    assert (Hlen : length r0 = n).
+    { unfold r0. rewrite app_length, Hlen1, repeat_length. lia. }
+    assert (Hnth : nth i r0 zero = zero).
+    { unfold r0. rewrite app_nth2 by lia. rewrite Hlen1, Nat.sub_diag.
+      destruct (n - i) eqn:En; [lia|]. reflexivity. }
+    (* loop bounds as the code computes them (isize) *)
+    assert (Hlo : Z.to_nat (Z.max 0 (- (Z.of_nat i - Z.of_nat (bm1 B)))) = row_lo B i)
+      by (unfold row_lo; lia).
+    assert (Hhi : Z.to_nat (Z.min (Z.of_nat (bm1 B) + Z.of_nat (bm2 B) + 1)
+                              (Z.of_nat n - (Z.of_nat i - Z.of_nat (bm1 B)))) = row_lo B i + row_cnt B i)
+      by (unfold row_lo, row_cnt; fold n; lia).
+    rewrite Hlo, Hhi. unfold for_.
+    replace (row_lo B i + row_cnt B i - row_lo B i) with (row_cnt B i) by lia.
+    rewrite (acc_loop i (row_term B v i)).
+    + eexists; split; [reflexivity|].
+      rewrite Hnth, acc_from_sum, <- (row_sum_dense B v i) by exact (proj1 (conj (proj2 Hi) I)).
+      fold n. fold (rowsum i).
+      unfold r0. destruct (n - i) as [|d] eqn:En; [lia|]. cbn [repeat].
+      rewrite (upd_list_app_mid' _ _ _ _ i Hlen1).
+      rewrite seq_S, map_app. cbn [map]. rewrite <- app_assoc. cbn [app].
+      replace (n - S i) with d by lia. reflexivity.
+    + lia.
+    + intros s r' Hs Hr'.
+      assert (Hs' : s < bm1 B + bm2 B + 1) by (unfold row_lo, row_cnt in Hs; fold n in Hs; lia).
+      rewrite (rd_ok r' i zero) by auto. cbn [bind].
+      rewrite mget_ok by (auto; lia). cbn [bind].
+      assert (Hcol : Z.to_nat (Z.of_nat s + (Z.of_nat i - Z.of_nat (bm1 B))) = s + i - bm1 B)
+        by (unfold row_lo in Hs; lia).
+      rewrite Hcol.
+      rewrite (rd_ok v (s + i - bm1 B) zero).
+      2:{ rewrite Hv. unfold row_lo, row_cnt in Hs. fold n in Hs. lia. }
+      cbn [bind]. rewrite upd_ok by auto. reflexivity.
+  - rewrite E. f_equal. rewrite Hr, Nat.sub_diag. cbn. now rewrite app_nil_r.
+Qed.
+
+(* the dense twin does not see padding *)
+Lemma dense_entry_same (B B' : banded) i j :
+  same_in_matrix_slots B B' -> i < bn B -> j < bn B -> dense_entry B' i j = dense_entry B i j.
+Proof.
+  intros (_ & Hn & H1 & H2 & H) Hi Hj. unfold dense_entry. rewrite H1, H2.
+  destruct (in_band (bm1 B) (bm2 B) i j) eqn:E; auto.
+Qed.
+
+Lemma band_mul_spec_lemma (B : banded) (v : list T) :
+  wfB B -> length v = bn B ->
+  band_mul B v = Ok (dense_mulv B v) /\
+  forall B', same_in_matrix_slots B B' -> band_mul B' v = band_mul B v.
+Proof.
+  intros Hwf Hv. split; [now apply band_mul_ok|].
+  intros B' HS. pose proof HS as (Hwf' & Hn & _).
+  rewrite !band_mul_ok by (auto; congruence). f_equal.
+  unfold dense_mulv. rewrite Hn. apply map_ext_in. intros i Hi. apply in_seq in Hi.
+  apply sum_n_ext. intros j Hj. now rewrite (dense_entry_same B B') by (auto; lia).
+Qed.
+
+End MulV.
+
+(* ------------------------------------------------------------------ statements pinned in Props/C04.v *)
+
+Lemma band_index_spec_lemma m1 m2 i j :
+  (in_band m1 m2 i j = true <-> (i <= j + m1 /\ j <= i + m2)) /\
+  (in_band m1 m2 i j = true -> band_slot m1 i j < m1 + m2 + 1 /\ j + m1 = i + band_slot m1 i j) /\
+  (forall j', in_band m1 m2 i j = true -> in_band m1 m2 i j' = true ->
+              band_slot m1 i j = band_slot m1 i j' -> j = j').
+Proof.
+  split; [apply in_band_iff|]. split.
+  - intros H. split; [now apply (band_slot_range m1 m2)|now apply (band_slot_col m1 m2)].
+  - intros j'. apply band_slot_inj.
+Qed.
+
+(* distinct in-band elements of an n x n band occupy distinct offsets inside the buffer *)
+Lemma band_storage_spec_lemma n m1 m2 i j i' j' :
+  i < n -> i' < n -> in_band m1 m2 i j = true -> in_band m1 m2 i' j' = true ->
+  i * (m1 + m2 + 1) + band_slot m1 i j < n * (m1 + m2 + 1) /\
+  (i * (m1 + m2 + 1) + band_slot m1 i j = i' * (m1 + m2 + 1) + band_slot m1 i' j' -> i = i' /\ j = j').
+Proof.
+  intros Hi Hi' Hb Hb'.
+  pose proof (band_slot_range _ _ _ _ Hb) as Hs. pose proof (band_slot_range _ _ _ _ Hb') as Hs'.
+  split; [now apply flat_lt|].
+  intros E. apply flat_inj in E as (-> & E); auto. split; auto.
+  now apply (band_slot_inj m1 m2 i').
+Qed.
+
+From Coq Require Import QArith Qcanon.
+From OV Require Import Inst.QcInst.
+
+Lemma AQ_RingLaws : RingLaws AQ.
+Proof. constructor. exact Qcrt. Qed.
